@@ -108,6 +108,8 @@ class SimBus:
 
     def send(self, src, can_id, ext, data, fd=False, remote=False, error=False):
         sim = self.sim
+        if sim.current is not None:
+            sim.current.reads = 0      # putting a frame on the bus is progress, not a busy spin
         k = len(self.frames)
         dup = False
         drop = False
